@@ -1,4 +1,5 @@
 import Proofs.SqlLoader
+import Proofs.SqlBuildProj
 
 /-!
   C12 — Loading fails only in documented ways and never half-applies input.
@@ -77,6 +78,19 @@ theorem build_outcome_total (u : UC) (stmts : List Stmt) :
     rcases build_error_cause u stmts e h with ⟨he, hc⟩ | ⟨he, hc⟩
     · subst he; exact Or.inr (Or.inl ⟨rfl, hc⟩)
     · subst he; exact Or.inr (Or.inr ⟨rfl, hc⟩)
+
+/-- BUILD SUCCESS: a statement list in which class names are distinct after upper-casing, identifiers (with attributes)
+    and associations name declared classes, key lists have equal length and target keys are attributes of the target
+    class, and every INSERT is positional into a declared class with core attribute types and readable values, builds;
+    the built state holds exactly the declared classes in statement order (attributes as declared), each with the
+    identifiers (an insertion-ordered dict), referential attributes and rows (deserialised values) that its statements
+    give it in statement order, and the associations in statement order -/
+theorem build_success (u : UC) (stmts : List Stmt) (h : BuildOk u stmts) :
+    build u stmts = .ok { classes := (newTables stmts).map (builtClass u stmts), assocs := ropsOf stmts } ∧
+    ∀ kind attrs, builtClass u stmts ⟨kind, attrs, [], [], []⟩ =
+      ⟨kind, attrs, (idxOf u kind stmts).foldl (fun d na => dictSet na.1 na.2 d) [], refsOf u kind stmts,
+        (insOf u kind stmts).map (specCells u ⟨kind, attrs, [], refsOf u kind stmts, []⟩ attrs)⟩ :=
+  ⟨build_ok u stmts h, builtClass_eq u stmts⟩
 
 /-- statements other than INSERT never make a build end in the parsing exception -/
 theorem build_parsing_needs_insert (u : UC) (stmts : List Stmt) (h : build u stmts = .error .parseErr) :
